@@ -18,58 +18,89 @@ set_option linter.unusedSimpArgs false
 private theorem normLimit_merge (dflt limit : Int) :
     (if (limit == 0) = true then dflt else limit) = normLimit dflt limit := rfl
 
-/-- case analysis over the five branches of `FetchPayload` once the limit in force is `lim ≥ 0`
-(goal: the translated tail = the model's tail, source `⟨d, a⟩`). -/
-local macro "fetch_tail" lim:ident d:ident a:ident h1:ident : tactic => `(tactic|
+/-- case analysis over the branches of `FetchPayload` once the limit in force is `lim ≥ 0`
+(goal: the translated tail = the model's tail, source `⟨d, a⟩`, reader ending `f`). -/
+local macro "fetch_tail" lim:ident d:ident a:ident f:ident h1:ident : tactic => `(tactic|
   (by_cases h2 : $d > $lim
-   · simp [$h1:ident, h2, toOutcome]
+   · have h2' : ¬ $d < 0 := by omega
+     cases $f:ident <;> simp [$h1:ident, h2, h2', toOutcome]
    · by_cases h3 : $d > 0
      · have h5 : ¬ ($d).toNat = 0 := by omega
        have h8 : (max $d 0).toNat = ($d).toNat := by omega
+       have h3' : ¬ $d < 0 := by omega
        by_cases h4 : ($d).toNat ≤ $a
-       · simp [$h1:ident, h2, h3, h4, h5, h8, toOutcome]
+       · cases $f:ident <;> simp [$h1:ident, h2, h3, h3', h4, h5, h8, toOutcome]
        · by_cases h6 : $a = 0
-         · simp [$h1:ident, h2, h3, h4, h5, h6, toOutcome]
-         · simp [$h1:ident, h2, h3, h4, h5, h6, toOutcome]
+         · cases $f:ident <;> simp [$h1:ident, h2, h3, h3', h4, h5, h6, toOutcome]
+         · cases $f:ident <;> simp [$h1:ident, h2, h3, h3', h4, h5, h6, toOutcome]
      · by_cases h4 : $d = 0
-       · simp [$h1:ident, h4, toOutcome]
-       · by_cases h5 : (min $a ($lim).toNat : Nat) < ($lim).toNat
+       · cases $f:ident <;> simp [$h1:ident, h4, toOutcome]
+       · have h4' : $d < 0 := by omega
+         by_cases h5 : (min $a ($lim).toNat : Nat) < ($lim).toNat
          · have h9 : ((min $a ($lim).toNat : Nat) : Int) < $lim := by omega
-           simp [$h1:ident, h2, h3, h4, h5, h9, toOutcome]
+           have h10 : $a < ($lim).toNat := by omega
+           have h11 : $a ≤ ($lim).toNat := by omega
+           cases $f:ident <;> simp [$h1:ident, h2, h3, h4, h4', h5, h9, h10, h11, toOutcome]
          · have h6 : ¬ ((min $a ($lim).toNat : Nat) : Int) < $lim := by omega
+           have h10 : ¬ $a < ($lim).toNat := by omega
            by_cases h7 : $a - min $a ($lim).toNat > 0
-           · simp [$h1:ident, h2, h3, h4, h5, h6, h7, toOutcome]
-           · simp [$h1:ident, h2, h3, h4, h5, h6, h7, toOutcome]))
+           · have h11 : ¬ $a ≤ ($lim).toNat := by omega
+             cases $f:ident <;> simp [$h1:ident, h2, h3, h4, h4', h5, h6, h7, h10, h11, toOutcome]
+           · have h11 : $a ≤ ($lim).toNat := by omega
+             have h12 : ¬ (($a : Nat) : Int) < $lim := by omega
+             cases $f:ident <;> simp [$h1:ident, h2, h3, h4, h4', h5, h6, h7, h10, h11, h12, toOutcome]))
 
-/-- `Request.FetchPayload`, as re-translated from request.go, is the model's `fetch`: the pair
-(payload installed by `SetPayload` / `r.stream`, returned error) means exactly the model's outcome;
-in particular the translated code never returns a bare `io.EOF` or `nil` without a payload. -/
-theorem fetchReq_regenerated_from_source (dflt limit : Int) (s : Src) :
-    toOutcome (fetchReqIR dflt limit s) = some (fetch dflt limit s) := by
+/-- `Request.FetchPayload`, as re-translated from request.go, is the model's `fetchRd` for either kind of reader
+(ending with `io.EOF`, or failing with `io.ErrUnexpectedEOF` after `actual` bytes): the pair (payload installed by
+`SetPayload` / `r.stream`, returned error) means exactly the model's outcome; in particular the translated code
+never returns a bare `io.EOF` or `nil` without a payload. -/
+theorem fetchReqRd_regenerated_from_source (dflt limit : Int) (failing : Bool) (s : Src) :
+    toOutcome (fetchReqIR dflt limit failing s) = some (fetchRd dflt limit failing s) := by
   obtain ⟨d, a⟩ := s
-  simp only [fetchReqIR, fetch, readFull, readAllLimited, copyDiscard, Rd.left, normLimit_merge]
+  simp only [fetchReqIR, fetchRd, fetch, fetchFailing, readFull, readAllLimited, copyDiscard, Rd.left, normLimit_merge]
   generalize normLimit dflt limit = lim
   by_cases h1 : lim < 0
-  · simp [h1, toOutcome]
-  · fetch_tail lim d a h1
+  · cases failing <;> simp [h1, toOutcome]
+  · fetch_tail lim d a failing h1
 
-/-- `Response.FetchPayload` (response.go) is the model's `fetchResp`; `m` is the method of the
-request the response answers (`stdr.Request`, `none` = nil). -/
-theorem fetchResp_regenerated_from_source (dflt limit : Int) (m : Option String) (s : Src) :
-    toOutcome (fetchRespIR dflt limit m s) = some (fetchResp dflt limit (m == some "HEAD") s) := by
+/-- … for an ordinary reader (ends with `io.EOF`): the model's `fetch`. -/
+theorem fetchReq_regenerated_from_source (dflt limit : Int) (s : Src) :
+    toOutcome (fetchReqIR dflt limit false s) = some (fetch dflt limit s) := by
+  rw [fetchReqRd_regenerated_from_source]; simp [fetchRd]
+
+/-- `Response.FetchPayload` (response.go) for either kind of reader; `m` is the method of the request the response
+answers (`stdr.Request`, `none` = nil). -/
+theorem fetchRespRd_regenerated_from_source (dflt limit : Int) (m : Option String) (failing : Bool) (s : Src) :
+    toOutcome (fetchRespIR dflt limit m failing s) =
+      some (if normLimit dflt limit < 0 then .stream else if (m == some "HEAD") then .ok 0 else fetchRd dflt limit failing s) := by
   obtain ⟨d, a⟩ := s
   have hm : (m.isSome && (m.getD "" == "HEAD")) = (m == some "HEAD") := by
     cases m with
     | none => rfl
     | some x => simp
-  simp only [fetchRespIR, fetchResp, fetch, readFull, readAllLimited, copyDiscard, Rd.left, normLimit_merge, hm]
+  simp only [fetchRespIR, fetchRd, fetch, fetchFailing, readFull, readAllLimited, copyDiscard, Rd.left, normLimit_merge, hm]
   generalize normLimit dflt limit = lim
   by_cases h1 : lim < 0
-  · simp [h1, toOutcome]
+  · cases failing <;> simp [h1, toOutcome]
   · by_cases hh : (m == some "HEAD") = true
     · simp [h1, hh, toOutcome]
-    · simp only [hh, if_false]
-      fetch_tail lim d a h1
+    · simp only [hh, if_false, h1]
+      fetch_tail lim d a failing h1
+
+theorem fetchResp_regenerated_from_source (dflt limit : Int) (m : Option String) (s : Src) :
+    toOutcome (fetchRespIR dflt limit m false s) = some (fetchResp dflt limit (m == some "HEAD") s) := by
+  rw [fetchRespRd_regenerated_from_source]
+  unfold fetchResp fetchRd
+  by_cases h1 : normLimit dflt limit < 0 <;> by_cases h2 : (m == some "HEAD") = true <;> simp [h1, h2]
+
+/-- **`fetchFailing` is what the translated `Response.FetchPayload` does on a failing reader of hidden length**
+(the response behind the Proxy's gzip compressor / after the transparent gunzip: `ContentLength = -1`). -/
+theorem fetchFailing_regenerated_from_source (dflt limit : Int) (m : Option String) (a : Nat)
+    (hm : (m == some "HEAD") = false) :
+    toOutcome (fetchRespIR dflt limit m true ⟨-1, a⟩) = some (fetchFailing dflt limit a) := by
+  rw [fetchRespRd_regenerated_from_source]
+  unfold fetchRd fetchFailing
+  by_cases h1 : normLimit dflt limit < 0 <;> simp [h1, hm]
 
 /-- The limit selection of both call sites (`x := inner; if x == 0 { x = outer }`). -/
 private theorem effLimit_merge (inner outer : Int) :
@@ -79,13 +110,13 @@ private theorem effLimit_merge (inner outer : Int) :
 same status written by the mux (413 / 400 / none), the handler is invoked in exactly the same cases
 (with or without a global filter), and the payload it then sees is the model's. -/
 theorem serve_regenerated_from_source (dflt pathL serverL : Int) (gf : Option Unit) (s : Src) :
-    (serveIR dflt pathL serverL gf s).1 = (serve dflt pathL serverL s).status ∧
-    (serveIR dflt pathL serverL gf s).2.1 = (serve dflt pathL serverL s).handled ∧
+    (serveIR dflt pathL serverL gf false s).1 = (serve dflt pathL serverL s).status ∧
+    (serveIR dflt pathL serverL gf false s).2.1 = (serve dflt pathL serverL s).handled ∧
     ((serve dflt pathL serverL s).handled = true →
-      toOutcome ((serveIR dflt pathL serverL gf s).2.2, .nil) = some (serve dflt pathL serverL s).payload) := by
+      toOutcome ((serveIR dflt pathL serverL gf false s).2.2, .nil) = some (serve dflt pathL serverL s).payload) := by
   have hf := fetchReq_regenerated_from_source dflt (effLimit pathL serverL) s
   simp only [serveIR, serve, effLimit_merge]
-  generalize fetchReqIR dflt (effLimit pathL serverL) s = r at hf ⊢
+  generalize fetchReqIR dflt (effLimit pathL serverL) false s = r at hf ⊢
   obtain ⟨p, e⟩ := r
   cases e <;> cases p <;> simp [toOutcome] at hf <;> simp [← hf, toOutcome] <;> cases gf <;> simp
 
@@ -95,14 +126,14 @@ which `handle` turns into `buildFailureResponse(500)`), otherwise `spCtx.resp` a
 are the response whose payload is the model's. `err0` is the incoming value of the named result. -/
 theorem buildResp_regenerated_from_source (dflt poolL proxyL : Int) (m : Option String) (err0 : Err)
     (st : Nat) (s : Src) :
-    let r := buildRespIR dflt poolL proxyL m err0 s
+    let r := buildRespIR dflt poolL proxyL m err0 false s
     let w := poolResp dflt poolL proxyL (m == some "HEAD") st s
     (r.1 = .nil ↔ w.delivered = true) ∧ r.2.1 = r.2.2 ∧
     (w.delivered = false → r.2.1 = none ∧ w.status = 500) ∧
     (w.delivered = true → w.status = st ∧ ∃ p, r.2.1 = some p ∧ toOutcome (p, .nil) = some w.payload) := by
   have hf := fetchResp_regenerated_from_source dflt (effLimit poolL proxyL) m s
   simp only [buildRespIR, poolResp, effLimit_merge]
-  generalize fetchRespIR dflt (effLimit poolL proxyL) m s = r at hf ⊢
+  generalize fetchRespIR dflt (effLimit poolL proxyL) m false s = r at hf ⊢
   obtain ⟨p, e⟩ := r
   cases e <;> cases p <;> simp [toOutcome] at hf <;> simp [← hf, toOutcome]
 
